@@ -60,6 +60,7 @@ StrOps ==
 TypedOps ==
   {O("tmake", "ta", "", IntV(2), NilV, NilV, NilV, "", <<>>), Alias("b", "ta"), O1("litmix", "a"), O1("lit3", "a"), Slice2("b", "ta", 0, 1), Read("ta", IntV(1))}
   \cup {O("concat", "c", y, NilV, NilV, StrV("a"), NilV, "", <<>>) : y \in {"ta", "b"}}
+  \cup {Write("ta", IntV(1), IntV(5))} \cup {Write("b", IntV(1), v) : v \in {StrV("s"), IntV(5)}}      \* a store at index len of a view whose storage has room: lands in the shared array, or fails and leaves it alone
   \cup {Write("ta", IntV(i), v) : i \in {0, 2, 3}, v \in {IntV(5), StrV("s"), Flt19}}
   \cup {AppendO("ta", v) : v \in {IntV(5), StrV("s"), Flt19}} \cup {Read("ta", IntV(0)), Read("ta", IntV(2)), Read("b", IntV(0)), O1("len", "ta")}
   \cup {InO("ta", Flt19), InO("ta", IntV(5)), InO("ta", IntV(1)), InO("ta", StrV("s")), InO("ta", NilV)}
